@@ -326,4 +326,11 @@ def r_enum(ctx):
     repo_idioms(ctx, "C10.R5", ('server', 'context', 'connection', 'twisted'))
 
 
-RULES = [("C10.R1", r1), ("C10.R2", r2), ("C10.R3", r3), ("C10.R4", r4), ("C10.R5", r_enum)]
+def r6(ctx):
+    """'disconnect exactly once on silence timeout ... mixed with duplicated, stale and garbage datagrams': the silence clock
+    may only be refreshed by datagrams that authenticated and passed the duplicate test (shared obligations C12.R4, C04.R2)"""
+    from . import c12, c04
+    c12.r4(_Sub(ctx, "C10.R6"))
+    c04.r2(_Sub(ctx, "C10.R6"))
+
+RULES = [("C10.R1", r1), ("C10.R2", r2), ("C10.R3", r3), ("C10.R4", r4), ("C10.R5", r_enum), ("C10.R6", r6)]
